@@ -31,7 +31,8 @@ class Prop:
     correspondence_name = 'Model/Rib.v step vs rustybgp_table::Table (harness/hx-rib)'
     rule = ('histories of insert/replace/remove/drop/stale marks/purges/next-hop flips over 3 prefixes, 3 peers (each with a restarted '
             'session), attribute blocks from small colliding domains; non-trivial = some prefix holds >= 2 candidate paths at some step; '
-            'distinct = distinct sequence of ranked lists')
+            'distinct = distinct sequence of ranked lists'
+            ' Enumerated on every run (gen/ribenum.py, tags enum:*): every operation of a 90-operation alphabet on each of 21 pre-states; two-candidate duels deciding at exactly one step of the decision order with the loser better at every later step, single-step ECMP exclusions, complete ties, EVPN MAC-mobility forms in every extended-community layout, LLGR_STALE / NO_LLGR in every community position; AS_PATH hop counts on both sides of 0/1/63/64/65/127/128/255/256/510 in every segment shape including unknown segment types and hundreds of one-AS segments; 67 (thorough: 131) prefixes crossing the id bitmap words with ids freed and re-used; prefix limits 0/1/2/u32::MAX; u32 ends of path ids, LOCAL_PREF, router ids, CLUSTER_LIST lengths; all role pairs.')
     exhaustive = {'quick': False, 'thorough': False}
     trusted_base = ['one address family per case (the model is one family of one shard); flag flips happen only through restale/restale_llgr of that family '
                     '(the cross-shard / cross-family transient between a flag flip and the re-sort of another table is not modelled)',
